@@ -209,7 +209,8 @@ def record_trace(rng):
         with BernoulliRecorder() as rec:
             if via_state and cur is None and rng.random() < 0.5:
                 n = rng.randint(1, 3)
-                out = s.sample(k, num_samples=n)                     # start state drawn by the library
+                # (one sample is the published default of num_samples)
+                out = s.sample(k) if n == 1 and rng.random() < 0.7 else s.sample(k, num_samples=n)   # start state drawn by the library
                 d0 = rec.ev[0] if rec.ev else None
                 if d0 is None:
                     ev.append(dict(e="Start", n=n, probs=[], bits=[]))
